@@ -352,9 +352,53 @@ def run(pid, args):
         v.violation("pair-%d" % seen, {"property": pid, "sig": p.sig, "r": p.r, "functor": p.functor, "query": p.query(), "cpp": PRELUDE + p.cpp(0),
                                        "model_accepts": e[1], "compiler_accepts": got, "proof_problems": problems,
                                        "broken": "compile status differs from TypeModel.direct_ok"})
+    # fixed programs outside the type universe of the model: spellings of functors the pairings cannot express
+    fx = fixed_programs(workdir + "-fixed")
+    v.coverage["fixed_programs"] = {"count": len(FIXED), "wrong": [n for n, _ in fx]}
+    for n, (name, want, got, src, errtxt) in enumerate(fx[:3]):
+        v.violation("fixed-%s" % name, {"property": pid, "broken": "fixed program '%s' must %s" % (name, "compile" if want else "be rejected"), "cpp": src,
+                                        "compiler_accepts": got, "compiler_output": errtxt[-1500:]})
     if not proof_ok and not v.violations:
         v.violation("proof", {"property": pid, "broken": problems}, no_input=True)
     return v.finish()
+
+
+# (name, must compile?, body): each compiled alone with g++ -fsyntax-only
+FIXED = [
+    ("raw-method-pointer-ref-param", True,
+     "struct T1 { long m(long& x, long y); long cm(long& x) const; };\n"
+     "void f1() { sigc::slot<long(T1&, long&, long)> s = &T1::m; sigc::slot<long(const T1&, long&)> c = &T1::cm; sigc::signal<long(T1&, long&, long)> g; g.connect(&T1::m); (void)s; (void)c; }"),
+    ("raw-method-pointer-under-bind", True,
+     "struct T2 { long m(long& x, long y); };\nvoid f2() { sigc::slot<long(T2&, long&)> s = sigc::bind(&T2::m, 5L); (void)s; }"),
+    ("raw-method-pointer-const-object", False,
+     "struct T3 { long m(long x); };\nvoid f3() { sigc::slot<long(const T3&, long)> s = &T3::m; (void)s; }"),
+    ("raw-method-pointer-value-to-ref", False,
+     "struct T4 { long m(long& x); };\nvoid f4() { sigc::slot<long(T4&, long)> s = &T4::m; (void)s; }"),
+    ("ptr-fun-ref-param", True,
+     "long g5(long& x, const std::string& s);\nvoid f5() { sigc::slot<long(long&, const std::string&)> s = sigc::ptr_fun(&g5); sigc::slot<long(long&, std::string)> t = &g5; (void)s; (void)t; }"),
+    ("lambda-ref-param", True,
+     "void f6() { sigc::slot<void(long&)> s = [](long& x) { ++x; }; sigc::slot<long(long)> t = [](const long& x) { return x; }; (void)s; (void)t; }"),
+    ("lambda-value-to-ref", False,
+     "void f7() { sigc::slot<void(long)> s = [](long& x) { ++x; }; (void)s; }"),
+    ("mem-functor-unbound", True,
+     "struct T8 : public sigc::trackable { void m(int& x); };\nvoid f8() { sigc::slot<void(T8&, int&)> s = sigc::mem_fun(&T8::m); (void)s; }"),
+]
+
+
+def fixed_programs(workdir):
+    os.makedirs(workdir, exist_ok=True)
+    wrong = []
+    try:
+        def one(item):
+            name, want, body = item
+            src = "#include <sigc++/sigc++.h>\n#include <string>\n" + body + "\n"
+            ok, errtxt = compile_status(src, workdir, "fixed_" + name.replace("-", "_"))
+            return (name, (name, want, ok, src, errtxt)) if ok != want else None
+        with ThreadPoolExecutor(max_workers=8) as ex:
+            wrong = [x for x in ex.map(one, FIXED) if x]
+    finally:
+        shutil.rmtree(workdir, ignore_errors=True)
+    return wrong
 
 
 def directed_pairings():
